@@ -111,6 +111,16 @@ CHECKS = [
      BASE_NOTE + "Negation equivariance of thresholds (exact only away from the asymmetric special-case regions; a few ulp in "
      "floats), and EER/AUC equivariance are evaluated on every case, not proved; EER relations are claimed for tie-free scores.",
      "Lean 4 proof about a hand-written model + metamorphic correspondence check", "DESIGN.md §5 C08"),
+ chk("C09",
+     "Lean theorem C09_cm proves, for ALL score lists, counts k,m, existing easy counts, 4 configurations and every "
+     "threshold at which the materialised positive is accepted and the materialised negative rejected (C09_side_pos/neg: "
+     "every threshold strictly inside the materialised range), that declaring easy samples gives exactly the matrix of the "
+     "object in which they are materialised as extreme scores. Tied to /repo by running both constructions through the real "
+     "API (both tied to the model with op cm, relation evaluated on the observed matrices). The threshold clause (six "
+     "metrics, linear) and the full/partial AUC clause are evaluated on every case as relations between two real runs.",
+     BASE_NOTE + "Only the matrix clause is proved; threshold (up to a few ulp, within the range of the scored samples) and "
+     "AUC equivalence are evaluated on sampled inputs and listed as statements_only in the evidence.",
+     "Lean 4 proof (matrix clause) + metamorphic correspondence check", "DESIGN.md §5 C09"),
 ]
 
 ALL = [f"C{i:02d}" for i in range(1, 21)]
